@@ -13,9 +13,6 @@
 // TAGS: what was serialised is classified by the TYPE of the serialiser, never by looking at text); QSslSocket::isEncrypted is a
 // ghost flag that only startClientEncryption() sets; SASL / SASL2 managers are cut at their entry (authenticate() = one AUTH write).
 #pragma once
-#ifdef VP_LOCAL_SHADOW
-#include "c04_task_shadow.h"   // temporary: see spec.py (LOCAL_SHADOW)
-#endif
 #include "vp_harness.h"
 #include "vp_dom.h"
 #include "vp_object.h"
@@ -38,9 +35,6 @@
 #include "XmppSocket.h"
 #undef private
 #include "client/QXmppOutgoingClient.cpp"
-#ifdef VP_LOCAL_SHADOW
-#include "base/QXmppStreamManagement.cpp"
-#endif
 #include "QXmppConfiguration.h"
 #include "QXmppStreamFeatures.h"
 #include <new>
@@ -112,7 +106,7 @@ void FastTokenManager::onSasl2Success(const Sasl2::Success &) { }
 template<typename T> union VpTyped { T v; VpTyped() { } ~VpTyped() { } T *p() { return &v; } T *operator->() { return &v; } };
 
 // instance configuration bits (cdefs VP_CFG): structural choices are compile-time constants, values stay symbolic
-enum { CFG_SSL_LOCAL = 1, CFG_STREAM_ID = 2, CFG_STREAM_FROM = 4, CFG_STREAM_VERSION = 8, CFG_STREAM_SYM = 16 /* id/from/version: 0..2 units each, emptiness symbolic */, CFG_TLS_SHIFT = 5 };
+enum { CFG_SSL_LOCAL = 1, CFG_STREAM_ID = 2, CFG_STREAM_FROM = 4, CFG_STREAM_VERSION = 8, CFG_STREAM_SYM = 16 /* id/from/version: 0..2 units each, emptiness symbolic */, CFG_TLS_SHIFT = 5, CFG_S2_SHIFT = 7 };
 
 struct Fx {
     VpTyped<QXmppOutgoingClientPrivate> priv;
